@@ -214,7 +214,7 @@ def run_history(P):
                             await prod.abort_transaction()
                             rec["finished"] = "abort"
                         in_txn[who] = None
-                    elif name in ("ctx_ok", "ctx_exc", "ctx_slow"):
+                    elif name in ("ctx_ok", "ctx_exc", "ctx_slow", "ctx_slow_exc"):
                         async with prod.transaction():
                             txn_index[who] += 1
                             in_txn[who] = txn_index[who]
@@ -222,9 +222,11 @@ def run_history(P):
                             rec["uid"] = await do_send(who, args[0], in_txn[who])
                             if name == "ctx_exc":
                                 raise RuntimeError("application error inside the transaction")
-                            if name == "ctx_slow":
+                            if name in ("ctx_slow", "ctx_slow_exc"):
                                 # fire-and-forget send, the body goes on for a while (errors land while it runs)
                                 await asyncio.sleep(0.6)
+                            if name == "ctx_slow_exc":
+                                raise RuntimeError("application error after the body ran for a while")
                         in_txn[who] = None
                     elif name == "sleep":
                         await asyncio.sleep(float(args[0]))
@@ -250,7 +252,7 @@ def run_history(P):
                 except BaseException as e:  # noqa: BLE001
                     rec["outcome"] = "exc:" + type(e).__name__
                     rec["msg"] = str(e)[:160]
-                if name in ("ctx_ok", "ctx_exc", "ctx_slow") and rec["outcome"] != "ok":
+                if name in ("ctx_ok", "ctx_exc", "ctx_slow", "ctx_slow_exc") and rec["outcome"] != "ok":
                     # the context manager left the transaction one way or the other unless begin itself failed
                     in_txn[who] = None if rec.get("txn") else in_txn[who]
                 rec["t_ret"] = round(loop.time() - t0, 6)
